@@ -26,6 +26,7 @@ TERMINAL = ('ClientCancelled', 'ServerCancelled', 'ClientClosedChannel', 'Server
 def run(ctx):
     _run_main(ctx)
     _shared_r4(ctx)
+    _shared_r5(ctx)
 
 
 def _run_main(ctx):
@@ -118,3 +119,10 @@ def _shared_r4(ctx):
     """Rules of other properties that are necessary conditions of this one too (found by seeding round 4)."""
     with ctx.rule('R11.6', 'the queue holds every delivery until the terminal message: unbounded consumer queues (shared with C03)', floor=1) as r:
         A.include(ctx, r, 'c03', 'R03.6', pick=('consumer-queue:',))
+
+
+def _shared_r5(ctx):
+    """Rules of other properties that are necessary conditions of this one too (found by seeding round 5)."""
+    from rules import arms as A
+    with ctx.rule('R11.8', "a refused channel open cannot drop another channel's consumer senders: an occupied id is rejected before anything is stored (shared with C10)", floor=2) as r:
+        A.include(ctx, r, 'c10', 'R10.1', pick=('occupied-error', 'vacant-inserts-that-id', 'vacant-only'))
